@@ -216,7 +216,14 @@ pub fn call_routes(routes: &mut Routes, h: &H, uri: &http::Uri, ex: &mut Exec) -
     *req.method_mut() = http::Method::POST;
     *req.version_mut() = http::Version::HTTP_2;
     *req.uri_mut() = uri.clone();
-    req.headers_mut().insert("content-type", "application/grpc".parse().unwrap());
+    // the subtype suffix a peer may use; routing is by path alone (chosen from the path so that
+    // both registration orders see the same request)
+    let ct = match uri.path().bytes().fold(7u32, |a, b| a.wrapping_mul(31).wrapping_add(b as u32)) % 8 {
+        0 | 1 => "application/grpc+proto",
+        2 => "application/grpc+json",
+        _ => "application/grpc",
+    };
+    req.headers_mut().insert("content-type", ct.parse().unwrap());
     req.headers_mut().insert("te", "trailers".parse().unwrap());
     match ex.drive(8, |cx| Service::<http::Request<http_body_util::Full<Bytes>>>::poll_ready(routes, cx)) {
         Out::Done(Ok(())) => {}
